@@ -114,6 +114,46 @@ def run(check):
     else:
       r_fm.ok('loop over %s breaks on first match' % label, fn.loc(loop))
 
+  # ------------------------------------------------------------------ a section matches as its pattern says
+  ps = repo.cls('carbon.storage', 'PatternSchema')
+  init_ps = ps.methods.get('__init__')
+  test_ps = ps.methods.get('test')
+  comp = [c for c in ast.walk(init_ps.node) if isinstance(c, ast.Call) and (dotted(c.func) or '').endswith('re.compile')] if init_ps else []
+  if not comp:
+    r_fm.cannot_decide('PatternSchema.__init__: re.compile(pattern) not found')
+  for c in comp:
+    if len(c.args) == 1 and not c.keywords and isinstance(c.args[0], ast.Name) and c.args[0].id in init_ps.params:
+      r_fm.ok('section patterns are compiled exactly as configured (no flags)', init_ps.loc(c))
+    else:
+      r_fm.violate('section pattern altered', init_ps, c, '`%s` does not compile the configured pattern as it is (flags / rewritten '
+                   'pattern): a section then also "matches" names its pattern does not match and ends the first-match search early'
+                   % short(c))
+  if test_ps is not None:
+    srch = [c for c in ast.walk(test_ps.node) if isinstance(c, ast.Call) and isinstance(c.func, ast.Attribute) and dotted(c.func.value) == 'self.regex']
+    if srch and all(c.func.attr == 'search' and len(c.args) == 1 and dotted(c.args[0]) == test_ps.params[1] for c in srch):
+      r_fm.ok('PatternSchema.test = regex.search(metric)', test_ps.loc(srch[0]))
+    else:
+      r_fm.violate('section test', test_ps, srch[0] if srch else None, 'PatternSchema.test does not apply self.regex.search to the metric name',
+                   construct='self.regex.search(metric)')
+  # the periodic reload installs what the files say, every time
+  for rname, gname, loader in (('reloadStorageSchemas', 'SCHEMAS', 'loadStorageSchemas'),
+                               ('reloadAggregationSchemas', 'AGGREGATION_SCHEMAS', 'loadAggregationSchemas')):
+    try:
+      rf = cx.fn('carbon.writer', rname)
+    except Exception:
+      r_fm.cannot_decide('carbon.writer.%s not found' % rname)
+      continue
+    grf = cx.cfg(rf)
+    loads = nodes_calling(grf, lambda c, loader=loader: dotted(c.func) == loader)
+    assigns = [n for n in loads if isinstance(n.ast, ast.Assign) and any(dotted(t) == gname for t in n.ast.targets)]
+    if assigns and grf.exit not in grf.reach([grf.entry], removed_nodes=set(assigns), normal_only=True):
+      r_fm.ok('%s re-reads the file on every tick (%s = %s())' % (rname, gname, loader), rf.loc(assigns[0].ast))
+    else:
+      r_fm.violate('%s can skip the reload' % rname, rf, (assigns or loads or [None])[0].ast if (assigns or loads) else None,
+                   '%s can return without `%s = %s()`: the list the writer matches new metrics against then drifts from the '
+                   'configuration file (a file restored with an older or equal modification time is never loaded)' % (rname, gname, loader),
+                   construct='%s = %s()' % (gname, loader))
+
   # ------------------------------------------------------------------ load order
   r_lo = check.rule('R-C19-order', 5, 'schemas are loaded in file order with the default last')
   for lname, default_name in (('loadStorageSchemas', 'defaultSchema'), ('loadAggregationSchemas', 'defaultAggregation')):
